@@ -80,7 +80,8 @@ func collectReachable(root interface{}, visited func(reachNode) bool) []reachNod
 			if t.PkgPath() != "github.com/ajitpratap0/GoSQLX/pkg/sql/ast" {
 				return
 			}
-			if t.Implements(nodeIface) || reflect.PtrTo(t).Implements(nodeIface) {
+			if (t.Implements(nodeIface) || reflect.PtrTo(t).Implements(nodeIface)) && !v.IsZero() {
+				// (a zero struct stored by value is an absent node, like a nil pointer: ObjectName{} in an operation that names no table)
 				rn := reachNode{Type: t.Name(), Key: t.Name() + ":" + dump.Dump(v.Interface()), Parent: parent}
 				out = append(out, rn)
 				if visited != nil && !visited(rn) {
